@@ -109,27 +109,30 @@ Definition hexval (c : N) : option N :=
   if (N.leb 48 c && N.leb c 57)%N then Some (c - 48)%N
   else if (N.leb 97 c && N.leb c 102)%N then Some (c - 87)%N
   else if (N.leb 65 c && N.leb c 70)%N then Some (c - 55)%N else None.
+Definition hexpair (x y : N) : option N :=
+  match hexval x, hexval y with Some a, Some b => Some (16 * a + b)%N | _, _ => None end.
+(* (a, r, g, b) of 1..4 two-digit groups r g b a *)
+Definition strict_hex (r : bytes) : option (N * N * N * N) :=
+  match r with
+  | [r1; r2] => match hexpair r1 r2 with Some rr => Some (255, rr, 0, 0)%N | None => None end
+  | [r1; r2; g1; g2] => match hexpair r1 r2, hexpair g1 g2 with Some rr, Some gg => Some (255, rr, gg, 0)%N | _, _ => None end
+  | [r1; r2; g1; g2; b1; b2] =>
+    match hexpair r1 r2, hexpair g1 g2, hexpair b1 b2 with Some rr, Some gg, Some bb => Some (255, rr, gg, bb)%N | _, _, _ => None end
+  | [r1; r2; g1; g2; b1; b2; a1; a2] =>
+    match hexpair r1 r2, hexpair g1 g2, hexpair b1 b2, hexpair a1 a2 with
+    | Some rr, Some gg, Some bb, Some aa => Some (aa, rr, gg, bb) | _, _, _, _ => None end
+  | _ => None
+  end.
+Definition strict_names : list (bytes * (N * N * N * N)) :=
+  [ (bs "black", (255, 0, 0, 0)); (bs "red", (255, 255, 0, 0)); (bs "green", (255, 0, 255, 0)); (bs "blue", (255, 0, 0, 255));
+    (bs "cyan", (255, 0, 255, 255)); (bs "magenta", (255, 255, 0, 255)); (bs "yellow", (255, 255, 255, 0));
+    (bs "white", (255, 255, 255, 255)) ]%N.
+Fixpoint strict_name (tab : list (bytes * (N * N * N * N))) (l : bytes) : option (N * N * N * N) :=
+  match tab with [] => None | (n, c) :: r => if beq l n then Some c else strict_name r l end.
 Definition spec_colour_strict (t : bytes) : option (N * N * N * N) :=      (* (a, r, g, b) for well formed text *)
-  let pair (x y : N) := match hexval x, hexval y with Some a, Some b => Some (16 * a + b)%N | _, _ => None end in
   match t with
-  | 35%N :: r =>
-    match r with
-    | [r1; r2] => match pair r1 r2 with Some rr => Some (255, rr, 0, 0)%N | None => None end
-    | [r1; r2; g1; g2] => match pair r1 r2, pair g1 g2 with Some rr, Some gg => Some (255, rr, gg, 0)%N | _, _ => None end
-    | [r1; r2; g1; g2; b1; b2] =>
-      match pair r1 r2, pair g1 g2, pair b1 b2 with Some rr, Some gg, Some bb => Some (255, rr, gg, bb)%N | _, _, _ => None end
-    | [r1; r2; g1; g2; b1; b2; a1; a2] =>
-      match pair r1 r2, pair g1 g2, pair b1 b2, pair a1 a2 with
-      | Some rr, Some gg, Some bb, Some aa => Some (aa, rr, gg, bb) | _, _, _, _ => None end
-    | _ => None
-    end
-  | _ =>
-    let l := lowers t in
-    if beq l (bs "black") then Some (255, 0, 0, 0)%N else if beq l (bs "red") then Some (255, 255, 0, 0)%N
-    else if beq l (bs "green") then Some (255, 0, 255, 0)%N else if beq l (bs "blue") then Some (255, 0, 0, 255)%N
-    else if beq l (bs "cyan") then Some (255, 0, 255, 255)%N else if beq l (bs "magenta") then Some (255, 255, 0, 255)%N
-    else if beq l (bs "yellow") then Some (255, 255, 255, 0)%N else if beq l (bs "white") then Some (255, 255, 255, 255)%N
-    else None
+  | [] => None
+  | c :: r => if N.eqb c 35 then strict_hex r else strict_name strict_names (lowers t)
   end.
 (* text outside the strict grammar (sloppy hex groups, trailing characters) is accepted or refused as the
    parser decides; the strict grammar is binding *)
@@ -171,9 +174,13 @@ Definition den_chrkey (s : source) : den :=
   | SText (Some t) _ => match skip_space t with [] => DKeep | c :: _ => DVal (PChr (Z.of_N c)) end
   | _ => den_num NChr s
   end.
-Definition den_intv (s : source) : den :=
+(* white-space-only text counts as a conversion that assigns nothing (the known finding of C07 about
+   mpt_convert_string): the count is kept, but a logarithmic axis is taken out of logarithmic mode (count 0) *)
+Definition den_intv (cur : option pval) (s : source) : den :=
   match src_number NU8 s with
-  | CZero => DDefault | CKeep => DKeep | CVal v => DVal (PInt (nv_int v))
+  | CZero => DDefault
+  | CKeep => match cur with Some (PStr _) => DVal (PInt 0) | _ => DKeep end
+  | CVal v => DVal (PInt (nv_int v))
   | CErr _ =>
     match s with
     | SText (Some t) _ | SValue (VS (Some t)) => if beq (lowers (firstn 3 t)) (bs "log") then DVal (PStr (Some (bs "log"))) else DRefuse
@@ -210,7 +217,11 @@ Definition den_align (s : source) : den :=
     end
   end.
 
-Definition denote (h : how) (cur : option pval) (dx dy : N) (s : source) : den :=
+Definition pt_x (v : pval) : N := match v with PPt x _ => x | _ => 0%N end.
+Definition pt_y (v : pval) : N := match v with PPt _ y => y | _ => 0%N end.
+
+(* dflt: the property's documented default *)
+Definition denote (h : how) (cur : option pval) (dflt : pval) (s : source) : den :=
   match h with
   | HStr => den_str s
   | HNum ty => den_num ty s
@@ -220,13 +231,13 @@ Definition denote (h : how) (cur : option pval) (dx dy : N) (s : source) : den :
   | HPt rmax => den_pt rmax s
   | HPtX => match den_num NF32 s, cur with
             | DVal (PF32 x), Some (PPt _ y) => DVal (PPt x y)
-            | DDefault, Some (PPt _ y) => DVal (PPt dx y)
+            | DDefault, Some (PPt _ y) => DVal (PPt (pt_x dflt) y)
             | DVal _, _ => DRefuse | d, _ => d end
   | HPtY => match den_num NF32 s, cur with
             | DVal (PF32 y), Some (PPt x _) => DVal (PPt x y)
-            | DDefault, Some (PPt x _) => DVal (PPt x dy)
+            | DDefault, Some (PPt x _) => DVal (PPt x (pt_y dflt))
             | DVal _, _ => DRefuse | d, _ => d end
-  | HIntv => den_intv s
+  | HIntv => den_intv cur s
   | HAlign => den_align s
   | HClip => den_clip s
   end.
@@ -261,21 +272,21 @@ Definition coerce (shape v : pval) : pval :=
   end.
 
 Definition apply_named (k : kind) (o : aobj) (p : bytes) (h : how) (s : asrc) : bool * aobj :=
-  let '(dx, dy) := match ok_default k p with PPt x y => (x, y) | _ => (0%N, 0%N) end in
+  let dflt := ok_default k p in
   match s with
   | AReset =>
     match h with
-    | HPtX => match aget o p with Some (PPt _ y) => (true, aput o p (PPt dx y)) | _ => (true, o) end
-    | HPtY => match aget o p with Some (PPt x _) => (true, aput o p (PPt x dy)) | _ => (true, o) end
-    | _ => (true, aput o p (ok_default k p))
+    | HPtX => match aget o p with Some (PPt _ y) => (true, aput o p (PPt (pt_x dflt) y)) | _ => (true, o) end
+    | HPtY => match aget o p with Some (PPt x _) => (true, aput o p (PPt x (pt_y dflt))) | _ => (true, o) end
+    | _ => (true, aput o p dflt)
     end
   | AOther => (false, o)
   | ASrc src =>
-    match denote h (aget o p) dx dy src with
+    match denote h (aget o p) dflt src with
     | DRefuse => (false, o)
-    | DDefault => (true, aput o p (ok_default k p))
+    | DDefault => (true, aput o p dflt)
     | DKeep => (true, o)
-    | DVal v => (true, aput o p (coerce (ok_default k p) v))
+    | DVal v => (true, aput o p (coerce dflt v))
     end
   end.
 
